@@ -52,7 +52,15 @@ def gen_silence_case(rng):
     events = sorted(set(["after_for_loop_iter", "after_while_loop_iter"] + [e for e in direct if rng.random() < 0.5]))
     import battery
     src = battery.programs()["loops"] if rng.random() < 0.2 else rc.gen_program(rng, nstmts=rng.choice([3, 4, 5]))
-    return {"src": src, "events": events, "guards": True, "silence": True, "export": False}
+    c = {"src": src, "events": events, "guards": True, "silence": True, "export": False}
+    if rng.random() < 0.5:
+        # a guard-exempt handler on some expression-level events: the ordinary handler must still be silenced
+        pool = [e for e in events if e in ("load_name", "after_int", "after_binop", "after_call", "after_argument", "after_assign_rhs", "after_compare", "after_attribute_load",
+                                           "after_subscript_load", "left_binop_arg", "right_binop_arg", "after_bool", "after_string", "after_none")]
+        c["exempt_events"] = [e for e in pool if rng.random() < 0.6] or pool[:1]
+        if not c["exempt_events"]:
+            del c["exempt_events"]
+    return c
 
 
 def oracle_loop_silence(c, im):
@@ -104,7 +112,8 @@ def run(ctx, model_ok):
         else:
             ok += 1
     # general loop silence: generated programs, every loop guard activated at its first hand-out
-    ls = [gen_silence_case(rng) for _ in range(60 if ctx.tier == "quick" else 600)]
+    ls = [dict(x) for x in getattr(ctx, "known_replays", []) + getattr(ctx, "fixed_replays", []) if x.get("silence")]
+    ls += [gen_silence_case(rng) for _ in range(60 if ctx.tier == "quick" else 600)]
     limpl = C01.run_impl(ls)
     nsil = 0
     for c, im in zip(ls, limpl):
